@@ -286,6 +286,11 @@ def e_vy(e):
         return "[" + ", ".join(e_vy(x) for x in e.elems) + "]"
     if k == "pop":
         return f"{base_vy(e.base)}{path_vy(e.path)}.pop()"
+    if k == "ext":
+        from vlib.c01_exthelper import HELPER_ADDR, STATIC
+        from eth_utils import to_checksum_address
+        kw = "staticcall" if e.fn in STATIC else "extcall"
+        return f"({kw} Helper({to_checksum_address(HELPER_ADDR)}).{e.fn}(" + ", ".join(e_vy(a) for a in e.args) + "))"
     if k == "dec":
         return {"ToDec": f"convert({e_vy(e.a)}, decimal)", "FromDec": f"convert({e_vy(e.a)}, {ty_vy(e.ty)})",
                 "Floor": f"floor({e_vy(e.a)})", "Ceil": f"ceil({e_vy(e.a)})"}[e.mode]
@@ -342,6 +347,10 @@ def s_vy(s, ind, out):
         out.append(pad + e_vy(s.e))
     elif k == "append":
         out.append(f"{pad}{base_vy(s.base)}{path_vy(s.path)}.append({e_vy(s.e)})")
+    elif k == "extstmt":
+        from vlib.c01_exthelper import HELPER_ADDR
+        from eth_utils import to_checksum_address
+        out.append(f"{pad}extcall Helper({to_checksum_address(HELPER_ADDR)}).{s.fn}(" + ", ".join(e_vy(a) for a in s.args) + ")")
     else:
         raise ValueError(k)
 
@@ -408,6 +417,17 @@ def e_coq(e):
         return "(EList [" + "; ".join(e_coq(x) for x in e.elems) + "])"
     if k == "pop":
         return f"(EPop ({base_coq(e.base)}) {path_coq(e.path)})"
+    if k == "ext":
+        # the scripted callee's meaning in closed form (the hidden storage variable #hid is the helper's `stored`)
+        if e.fn == "add":
+            return f"(EBin Add (TInt 256 false) {e_coq(e.args[0])} {e_coq(e.args[1])})"
+        if e.fn in ("echo_u", "echo_i8", "echo_b", "echo_d"):
+            return e_coq(e.args[0])
+        if e.fn == "len_b":
+            return f"(ELen {e_coq(e.args[0])})"
+        if e.fn == "get":
+            return f"(ESelf {e.hid})"
+        raise ValueError(e.fn)
     if k == "dec":
         return f"(EDec {e.mode} {ty_coq(e.ty)} {e_coq(e.a)})"
     if k == "flagnot":     # ~x on a flag with n members = x xor (2**n - 1)
@@ -460,6 +480,14 @@ def s_coq(s):
         return f"(SExpr {e_coq(s.e)})"
     if k == "append":
         return f"(SAppend ({base_coq(s.base)}) {path_coq(s.path)} {s.cap} {e_coq(s.e)})"
+    if k == "extstmt":
+        from vlib.c01_exthelper import CONTRACT_ADDR
+        if s.fn == "store":    # helper.stored := x ; helper logs Called(msg.sender = this contract, x)
+            return (f"(SIf (EConst (VBool true)) [SAssign (BSto {s.hid}) [] {e_coq(s.args[0])}; "
+                    f"SLog {s.evid} [EConst (VInt {int(CONTRACT_ADDR, 16)}); ESelf {s.hid}]] [])")
+        if s.fn == "fail":
+            return f"(SRaiseR {s.rid})"
+        raise ValueError(s.fn)
     raise ValueError(k)
 
 
@@ -535,6 +563,9 @@ class Program:
         """prune=True: omit internal functions no external function reaches (for reports; the Coq term is not pruned)"""
         keep = self.reachable_ints() if prune else None
         out = []
+        if getattr(self, "uses_ext", False):
+            from vlib.c01_exthelper import INTERFACE
+            out.append(INTERFACE)
         for fl in self.flags:
             out.append(f"flag {fl[1]}:")
             for i in range(fl[2]):
@@ -546,6 +577,8 @@ class Program:
                 out.append(f"    {fn}: {ty_vy(ft)}")
             out.append("")
         for name, fields in self.events:
+            if name.startswith("$"):
+                continue          # an event of the scripted callee
             out.append(f"event {name}:")
             for fn, ft in fields:
                 out.append(f"    {fn}: {ty_vy(ft)}")
@@ -553,6 +586,8 @@ class Program:
                 out.append("    pass")
             out.append("")
         for name, t in self.sto:
+            if name.startswith("$"):
+                continue          # hidden model variable (state of the scripted callee)
             out.append(f"{name}: immutable({ty_vy(t)})" if name in self.imm else f"{name}: {ty_vy(t)}")
         for name, t in self.tra:
             out.append(f"{name}: transient({ty_vy(t)})")
